@@ -9,7 +9,7 @@ P("C05",
             "invariants by induction over every oracle; trace acceptors; deterministic channel-handshake replay on both real engines",
   level_text="c05_parallel_quiescent: for every program, initial queue, alternating Pause/Continue script and EVERY interleaving, "
              "no handler is executing when Pause returns and none starts before Continue is called (pause lock held across the round); "
-             "c05_monitor_alternates: the monitor only issues alternating scripts. c05_serial_refuted: two witness interleavings on the "
+             "c05_two_pausers_quiescent: the same with TWO pauser goroutines whose Pause calls may overlap a round (lock owner explicit), for every interleaving; c05_two_pausers_flag_refuted: an 'already paused' flag swapped before pauseLock lets the second Pause return under an executing handler. c05_monitor_alternates: the monitor only issues alternating scripts. c05_serial_refuted: two witness interleavings on the "
              "serial engine (flag loaded 0 -> Pause returns -> handler starts; Pause returns while a handler runs) — confirmed on the "
              "real engine by handshake replay (known finding). c05_serial_at_most_one: what the serial engine does guarantee, for every "
              "interleaving. c05_continue_live (serial): events are conserved (handled = scheduled as multisets when Run returns) and, "
